@@ -566,12 +566,14 @@ func (a *array) getLen() uintptr {
 }
 
 func (a *array) next(i int64) (next int64, v Value, ok bool) {
-	ok = a != nil && 0 <= i && i <= int64(a.len)
+	// Any index of the array is a valid starting point, even above a.len
+	// (e.g. the last item was just set to nil during a traversal).
+	ok = a != nil && 0 <= i && i <= int64(len(a.values))
 	if !ok {
 		return
 	}
 	for {
-		if i == int64(a.len) {
+		if i >= int64(a.len) {
 			return
 		}
 		v = a.values[i]
